@@ -481,7 +481,7 @@ func ruleC11b(c *Ctx) []*report.Result {
 						if !(tb == b || tb.Dominates(b)) || len(tb.Preds) != 1 {
 							continue
 						}
-						if inList(kindOfType(t), adm) && lab.paramsCorrelated(fn, vp, tp) {
+						if inList(kindOfType(t), adm) && lab.typeOperandOf(fn, vp, tp) {
 							okArm = true
 						}
 					}
